@@ -131,19 +131,22 @@ def parse_race_logs(paths):
                         re.match(r"^(Previous )?(read|write)", part.strip(), re.I):
                     stacks.append(part)
             ents = []
+            inner = []
             ingl = 0
             for st in stacks[:2]:
                 fr = [f for f in frames(st)]
                 gl = [f for f in fr if f.startswith(GOLEVELDB)]
                 if gl:
                     ingl += 1
-                    # outermost goleveldb entry point and innermost frame
+                    # innermost goleveldb frame (the racing access) < outermost goleveldb entry point
                     ents.append(gl[0].replace(GOLEVELDB, "") + "<" + gl[-1].replace(GOLEVELDB, ""))
+                    inner.append(gl[0])
                 else:
                     ents.append((fr[0] if fr else "?"))
+                    inner.append(fr[0] if fr else "?")
             ents.sort()
             sig = "race:" + "|".join(ents)
-            reports.append((sig, blk.strip(), ingl))
+            reports.append((sig, blk.strip(), ingl, inner))
     return reports
 
 
@@ -318,7 +321,7 @@ def main():
             reps = parse_race_logs(logs)
             agg["counters"]["race_reports"] = agg["counters"].get("race_reports", 0) + len(reps)
             seen = set()
-            for sig, text, ingl in reps:
+            for sig, text, ingl, inner in reps:
                 if sig in seen:
                     continue
                 seen.add(sig)
@@ -329,7 +332,8 @@ def main():
                 rel = cfg.get("race_relevant")
                 relevant = True
                 if rel:
-                    relevant = any(re.search(x, text) for x in rel)
+                    # relevance is judged on the two racing accesses (innermost frames), not on their callers
+                    relevant = any(re.search(x, f) for x in rel for f in inner)
                 if ingl >= 1 and relevant:
                     violations.append((sig, "data race reported by the race detector", rp))
                 elif ingl >= 1:
